@@ -22,6 +22,30 @@ REPO = Path("/repo")
 
 # (property, name, relative file, old text, new text)
 MUTANTS = [
+    # ---- C17
+    ("C17", "revert_rpc_copy_fix", "plugins/fcp_cpp/fcp_cpp/rpc.py", "    fcp = deepcopy(fcp)\n", ""),
+    ("C17", "protocol_set_order_in_header", "plugins/fcp_cpp/fcp_cpp/generator.py",
+     '                "contents": env.get_template(template_name).render(template_arguments),',
+     '                "contents": env.get_template(template_name).render(template_arguments) + ("// protocols: " + ",".join(fcp.get_protocols()) if output_file == "fcp.h" else ""),'),
+    ("C17", "date_in_code_line", "plugins/fcp_cpp/fcp_cpp/rpc.h.j2",
+     "// Generated using fcp {{version}} on {{date}} by {{user}}@{{hostname}}\n",
+     "// Generated using fcp {{version}} on {{date}} by {{user}}@{{hostname}}\n// build day {{date[:10]}}\n"),
+    ("C17", "host_in_second_comment", "plugins/fcp_cpp/fcp_cpp/fcp.h.j2",
+     "// Generated using fcp {{version}} on {{date}} by {{user}}@{{hostname}}\n",
+     "// Generated using fcp {{version}} on {{date}} by {{user}}@{{hostname}}\n// builder: {{hostname}}\n"),
+    ("C17", "module_level_counter", "plugins/fcp_cpp/fcp_cpp/generator.py",
+     '                "contents": env.get_template(template_name).render(template_arguments),',
+     '                "contents": env.get_template(template_name).render(template_arguments) + (f"// build {_bump()}\\n" if output_file == "rpc.h" else ""),'),
+    ("C17", "dbc_encoder_cached_across_calls", "plugins/fcp_dbc/fcp_dbc/dbc_writer.py",
+     "    encoder = make_encoder(\n        \"packed\", fcp, PackedEncoderContext().with_unroll_arrays(True)\n    )\n",
+     "    global _ENC\n    try:\n        encoder = _ENC\n    except NameError:\n        encoder = _ENC = make_encoder(\"packed\", fcp, PackedEncoderContext().with_unroll_arrays(True))\n"),
+    ("C17", "listing_order_in_output", "plugins/fcp_can_c/fcp_can_c/can_c_writer.py",
+     "                yield file, f.read()\n", "                yield file, f.read() + ('/* ' + ' '.join(os.listdir(self.templates_dir)) + ' */' if file == 'can_frame.h' else '')\n"),
+    ("C17", "enum_iteration_through_set", "plugins/fcp_can_c/fcp_can_c/can_c_writer.py",
+     "        values = {v.name: v.value for v in enum.enumeration}\n", "        values = {n: dict((v.name, v.value) for v in enum.enumeration)[n] for n in set(v.name for v in enum.enumeration)}\n"),
+    ("C17", "verifier_marks_tree", "src/fcp/verifier.py",
+     "        for category in self.categories:\n            self.run_checks(category, fcp).attempt()",
+     "        for category in self.categories:\n            self.run_checks(category, fcp).attempt()\n        for s in fcp.structs:\n            for f in s.fields:\n                if f.unit is None:\n                    f.unit = ''"),
     # ---- C10
     ("C10", "drop_attempt_after_verify", "src/fcp/codegen.py",
      "        self.verifier.verify(fcp).attempt()\n", "        self.verifier.verify(fcp)\n"),
@@ -197,6 +221,9 @@ def main() -> None:
         try:
             copy_repo(tmp)
             apply(tmp, rel, old, new)
+            if name == "module_level_counter":
+                q = tmp / "plugins/fcp_cpp/fcp_cpp/generator.py"
+                q.write_text(q.read_text().replace("class ToCpp(", "_N = [0]\n\n\ndef _bump():\n    _N[0] += 1\n    return _N[0]\n\n\nclass ToCpp(", 1))
             if name == "str_pad_short_payload":
                 q = tmp / "src/fcp/serde.py"
                 q.write_text(q.read_text().replace("import struct\n", "import struct\nbuiltins_len = len\n", 1))
